@@ -63,7 +63,7 @@ def attempt (o : Oracle) (st : MinSt) (it : It) : MinSt × It :=
   let cand := it.best.rmslice s st.chunkEnd
   let mk : Resp → Att := fun r =>
     { tag := 0, lo := s.toNat, hi := st.chunkEnd.toNat, size := st.chunkSize, bestLen := it.best.len,
-      cand := cand, resp := r }
+      base := it.best, tIdx := it.nTests, cand := cand, resp := r }
   match it.try o cand mk with
   | (.accepted, it) => ({ st with removed := true, chunkEnd := s }, it)
   | (_, it) =>
